@@ -1,5 +1,7 @@
 """C14 — free, space, sector-map, extract-unused agree with the catalogue and each other."""
+import os
 import re
+import sys
 
 import vlib
 from gen import discs
@@ -62,6 +64,9 @@ def runs_of_free(owner, total, lo=0):
 
 
 def special_disc(r, kind):
+    if kind == 'small-total':
+        # the catalogue records fewer sectors than the medium has: every command goes by the catalogue's count
+        return discs.gen_disc(r, variant=r.choice(['dfs', 'wdfs']), geom=(80, 10), total=r.choice([456, 410, 799]), max_files=3)
     """layouts aimed at the corner cases of the property"""
     used = set()
     if kind == 'wdfs-second-empty':
@@ -108,7 +113,7 @@ def run(ctx):
     impl = ctx.build('asan')
     n = 72 if ctx.tier == 'quick' else 500
     cases = []
-    kinds = ['wdfs-second-empty', 'wdfs-first-empty', 'wdfs-empty', 'zero-length', 'zero-length', 'zero-only']
+    kinds = ['wdfs-second-empty', 'wdfs-first-empty', 'wdfs-empty', 'zero-length', 'zero-length', 'zero-only', 'small-total']
     for k in range(n):
         if k < 3 * len(kinds) or r.chance(1, 5):
             kind = kinds[k % len(kinds)]
